@@ -118,7 +118,7 @@ template<int DD> int run_scn_t(Scn const& s, int fk, long k, long* counts /*out 
 			case 31: *A = (*B)(); break;
 			case 32: *A = std::move(*B); break;   // non-propagating, unequal allocator instances: the block cannot change hands, the elements are moved
 			case 33: C.emplace(std::move(*B), Alloc(1)); break;
-			case 36: C.emplace(std::move(*B)); if(C->get_allocator().id != 2) violation("C09:move-ctor(stateful-alloc):allocator", "the plain move constructor did not take over the source's allocator"); break;   // plain move construction of an array whose allocator instance is not a default-constructed one: adopts block and allocator, allocates nothing
+			case 36: C.emplace(std::move(*B)); if(C->get_allocator().id != 2) violation("C09:D" + std::to_string(D) + ":move-ctor(stateful-alloc):allocator", "the plain move constructor did not take over the source's allocator"); break;   // plain move construction of an array whose allocator instance is not a default-constructed one: adopts block and allocator, allocates nothing
 			case 35: *A = LazyRange<Arr>{&*B}; break;   // a right-hand side that is neither a view nor an array (extensions(), begin(), end() only): the kind of object the lazy BLAS / FFT expressions are
 			case 34: if constexpr(DD >= 2) { Arr Bt(B->transposed()); faults().reset_counts(); if(k > 0) fk_at(fk) = k; a0 = ledger().n_alloc; auto const& cv = std::as_const(Bt).transposed(); *A = cv; } else { Arr const& Bc = *B; auto const& cv = Bc.sliced(0, Bc.size()); *A = cv; } break;  // a named read-only view (const_subarray) of equal extents and non-canonical strides
 			default: break;
@@ -161,13 +161,13 @@ int main(int argc, char** argv) {
 		softcfg().sink = [](std::string const&, std::string const& key, std::string const& detail) { std::string sym = key.substr(key.rfind(':') + 1); violation(g_key_prefix + ":" + sym, detail, false); };
 		// dry run (in a child as well: the unchanged tree has scenarios that crash even without faults? no — but keep the parent clean)
 		long counts[NFK] = {0}; int pfd[2]; if(::pipe(pfd) != 0) return; std::string err;
-		g_key_prefix = "C09:" + s.name + ":dry-run";
+		g_key_prefix = "C09:D" + std::to_string(D) + ":" + s.name + ":dry-run";
 		int rc = fork_run([&] { long cnt[NFK] = {0}; run_scn(s, 0, 0, cnt); raw_write(pfd[1], reinterpret_cast<char const*>(cnt), sizeof cnt); return 0; }, &err);
 		::close(pfd[1]); if(::read(pfd[0], counts, sizeof counts) != long(sizeof counts)) { std::memset(counts, 0, sizeof counts); } ::close(pfd[0]);
-		if(rc != 0) { violation("C09:" + s.name + ":dry-run:died", "scenario dies even without an injected fault: rc=" + std::to_string(rc) + " " + err.substr(0, 400), false); return; }
+		if(rc != 0) { violation("C09:D" + std::to_string(D) + ":" + s.name + ":dry-run:died", "scenario dies even without an injected fault: rc=" + std::to_string(rc) + " " + err.substr(0, 400), false); return; }
 		long total = 0;
 		for(int fk = 0; fk < NFK; ++fk) for(long k = 1; k <= counts[fk]; ++k) {
-			++total; g_key_prefix = "C09:" + s.name + ":" + FK[fk]; op((s.name + ":" + FK[fk]).c_str());
+			++total; g_key_prefix = "C09:D" + std::to_string(D) + ":" + s.name + ":" + FK[fk]; op((s.name + ":" + FK[fk]).c_str());
 			std::string e2; int rc2 = fork_run([&] { return run_scn(s, fk, k, nullptr); }, &e2);
 			count(std::string("injections:") + FK[fk]);
 			if(rc2 != 0) {  // child died: terminate (exception crossed a noexcept), sanitizer report (double free, use after free), assertion ...
